@@ -65,7 +65,17 @@ def checkRun (l : Line) (blocks : Bool) : Verdict := Id.run do
   let mut k := 0
   let mut nontrivial := false
   let mut modelOn := true
+  -- key events injected between steps: (step, press?, button)
+  let evs : List (Nat × Nat × Nat) := ((l.inS "ev").splitOn ",").filterMap fun e =>
+    match e.splitOn ":" with
+    | [a, b, c] => some (parseNat a, parseNat b, parseNat c)
+    | _ => none
   for stepS in (l.outS "t").splitOn ";" do
+    for (ek, press, bt) in evs do
+      if ek == k then
+        let kf : Fin 8 := ⟨bt % 8, Nat.mod_lt _ (by decide)⟩
+        let joy := Joypad.step cm.bus.io.joy (if press == 1 then .press kf else .release kf)
+        cm := { cm with bus := { cm.bus with io := { cm.bus.io with joy := joy } } }
     let cur := parseObs stepS
     -- 1. the property, from the implementation's outputs (and the SM83 cycle table for instruction steps)
     let d := (cur.div + 65536 - prev.div) % 65536
